@@ -10,7 +10,15 @@ import sys
 sys.path.insert(0, os.path.dirname(os.path.dirname(os.path.abspath(__file__))))
 from harness import pysrc  # noqa: E402
 
-FILES = {"typehintPins": ("C07Pins", "src_typehints_pinned",
+FILES = {"gluePins": ("GluePins", "src_glue_pinned",
+                      "the glue around every translated `_validate_to_tuple` (koda_validate/_internal.py: the two bridges "
+                      "from the tuple protocol to result objects, `_wrap_sync_validator` / `_wrap_async_validator`, the "
+                      "fast-path closure, the two raisers; coerce.py: `Coercer.__call__`, `coercer`): what `run…Method` / "
+                      "`callItem` / `applyCoerce` in the interpreters stand for"),
+         "resultPins": ("C05Pins", "src_result_map_pinned",
+                        "`Valid.map` / `Invalid.map` (koda_validate/valid.py): modelled by `Out.map` (Properties/C05.lean, "
+                        "C05_map_valid / C05_map_invalid)"),
+         "typehintPins": ("C07Pins", "src_typehints_pinned",
                           "typehint resolution (koda_validate/typehints.py, whole module): hand-modelled by `derive` "
                           "(KodaModel/Typehint.lean)"),
          "signaturePins": ("C08Pins", "src_signature_pinned",
